@@ -126,3 +126,32 @@ contract("C01", "tempering_swap", native=False, replay_with="tempering_native")(
 contract("C01", "tempering_worker_update_position", native=False, replay_with="tempering_native")(_wup)
 contract("C01", "tempering_worker_send_position", native=False, replay_with="tempering_native")(_wsp)
 bounded("C01", "tempering_native", native_runs=3)(_tn)
+
+
+@bounded("C01", "retry_until_accept_native", native_runs=1)
+def retry_until_accept_native(vc):
+    """STRICT long-run check on the simplest target (1-d standard normal, fixed proposal width): the variance of the chain must
+    be the variance of the target within Monte-Carlo error.  Every sampler of the library re-draws proposals until one is accepted
+    and never records the current point again on a rejection; what is recorded is therefore the *jump chain* of the
+    Metropolis-Hastings chain, whose long-run law is proportional to pi(x) * (acceptance rate from x), not pi(x).  Each decision
+    is a correct MH decision (proved), the law of the recorded samples is not the target (recorded finding)."""
+    from inference.mcmc import GibbsChain
+    from contracts.common import quiet
+    seed = vc.int("seed", lo=0, hi=1000)
+    post = lambda x: float(-0.5 * np.sum(np.asarray(x, dtype=float) ** 2))
+    worst = 0.0
+    for width in (0.5, 2.4):
+        ch = GibbsChain(posterior=post, start=np.array([0.1]), widths=np.array([width]), display_progress=False)
+        ch.params[0].rng = np.random.default_rng(seed)
+        ch.rng = np.random.default_rng(seed + 1)
+        ch.params[0].chk_int = 10 ** 9            # keep the proposal width fixed (no adaptation): a plain MH chain
+        quiet(ch.advance, 30000)
+        x = np.asarray(ch.get_parameter(0, burn=1000), dtype=float)
+        nb = 40
+        L = x.size // nb
+        bv = x[: nb * L].reshape(nb, L)
+        v_hat = float(np.mean(bv.var(axis=1) + (bv.mean(axis=1) - x.mean()) ** 2))
+        se = float(bv.var(axis=1).std(ddof=1) / np.sqrt(nb))
+        vc.inputs[f"variance_width_{width}"] = [v_hat, se]
+        worst = max(worst, abs(v_hat - 1.0) / (se + 0.002))
+    vc.ensures("long_run_variance_is_the_target_variance", worst < 5.0)
